@@ -9,7 +9,8 @@ def _s(name, func, select, pm, params, modes):
 
 SITES = [
     # calculate_M_matrix: Mii = 1 / np.sqrt(1 + g[:, 2] / k0)
-    _s("mii", "calculate_M_matrix", ("assign", "Mii", 0), {"g[:, 2]": "gz", "k0": "k0"}, ["gz", "k0"], ["real"]),
+    _s("mii", "calculate_M_matrix", ("assign", "Mii", 0), {"g[:, 2]": "gz", "k0": "k0"}, ["gz", "k0"], ["real", "float"]),
+    _s("k0Of", "calculate_M_matrix", ("assign", "k0", 0), dict(_WL), ["wavelength"], ["real", "float"]),
     # calculate_structure_matrix: A *= prefactor * Mii[None] * Mii[:, None] ; diag = 2 * 1 / wavelength * sg ; diag *= Mii
     _s("structScale", "calculate_structure_matrix", ("augassign", "A", 0),
        {"prefactor": "prefactor", "Mii[None]": "mj", "Mii[:, None]": "mi"}, ["prefactor", "mi", "mj"], ["real", "rat"]),
